@@ -506,6 +506,12 @@ def analytic_case(draw, names=None, nmax=12, need_edge=True, modes=('rho', 'sets
         gc['nw'] = {'rw': [draw(wp) for _ in gc['nodes']]}
         case['nl_weights'] = draw(st.sampled_from(['both', 'both', 'transmission', 'recovery']))
         case['tmax'] = case['tmin'] + (case['tmax'] - case['tmin']) / 2.0       # hazards up to twice as large
+    if gc.get('ew') is None and e.level == 'wrapper' and draw(st.integers(0, 3)) == 0:
+        # unrelated attributes named 'weight' on the graph; no weight option is passed, so they must be ignored
+        wp2 = st.sampled_from([0.25, 0.5, 2.0, 3.0])
+        gc['ew'] = {'weight': [draw(wp2) for _ in gc['edges']]}
+        gc['nw'] = {'weight': [draw(wp2) for _ in gc['nodes']]}
+        case['stray_weight_attributes'] = True
     if name in ('EBCM_pref_mix', 'EBCM_pref_mix_discrete'):
         case['pnk_defaultdict'] = draw(st.booleans())
         if dense:
